@@ -28,6 +28,9 @@ VERUS = shutil.which('verus') or '/opt/veriftools/verus/verus'
 # Verus diagnostics that are failed proof obligations (everything else at level "error" is a front-end error)
 OBLIGATION_KINDS = [
     (r'postcondition not satisfied', 'post'),
+    (r'unable to prove post-?condition', 'post'),
+    (r'unable to prove pre-?condition', 'pre'),
+    (r'unable to prove', 'assert'),
     (r'precondition not satisfied', 'pre'),
     (r'invariant not satisfied (before|at end of) loop', 'inv'),
     (r'loop invariant not (satisfied|preserved)', 'inv'),
@@ -40,11 +43,8 @@ OBLIGATION_KINDS = [
     (r'decreases not satisfied', 'termination'),
     (r'could not prove termination', 'termination'),
     (r'possible bit shift underflow/overflow', 'overflow'),
-    (r'unwrap|expect', 'pre'),
     (r'cannot show invariant holds', 'inv'),
     (r'recommendation not met', 'recommends'),
-    (r'unreachable', 'panic'),
-    (r'proof block|by \(.*\)', 'assert'),
 ]
 RLIMIT_RE = re.compile(r'[Rr]esource limit|rlimit')
 
@@ -238,7 +238,9 @@ def verify_unit(unit, info, repo, workdir, seed=None, rlimit_mult=1):
             'changed_since_baseline': reg['changed_since_baseline'] if reg else None,
             'rendered': d.get('rendered', '')})
     if frontend:
+        # the verifier did not get to (or through) verification: nothing it reported is a decided obligation
         res['undecided'].append('verus front-end error(s): ' + ' | '.join(frontend[:4]))
+        res['failures'] = []
     # canaries: every fn canary_* in the file must have failed
     canaries = sorted({m.group(1) for l in lines for m in [FN_RE.match(l)] if m and m.group(1).startswith('canary_')})
     for c in canaries:
